@@ -62,13 +62,11 @@ def forms(pane, A, B, C=None):
     out.append(('annotated', AT, lambda v: v, lambda r: r, t.get_args(t.get_args(AT)[0])))
     Holder = grammar.pin(type('Holder', (pane.PaneBase,), {'__annotations__': {'f': U}, '__module__': 'mc.generated'}))
     out.append(('dc_field', Holder, lambda v: {'f': v}, lambda r: r.f, mem))
-    try:
-        G1 = grammar.pin(type('GenL', (pane.PaneBase, t.Generic[T_]), {'__annotations__': {'f': t.Union[T_, B]}, '__module__': 'mc.generated'}))
-        out.append(('generic_left', grammar.pin(G1[A]), lambda v: {'f': v}, lambda r: r.f, mem))
-        G2 = grammar.pin(type('GenR', (pane.PaneBase, t.Generic[T_]), {'__annotations__': {'f': t.Union[A, T_]}, '__module__': 'mc.generated'}))
-        out.append(('generic_right', grammar.pin(G2[B]), lambda v: {'f': v}, lambda r: r.f, mem))
-    except TypeError:
-        pass
+    from mc.classes_gen import new_class
+    G1 = grammar.pin(new_class('GenL', (pane.PaneBase, t.Generic[T_]), {'__annotations__': {'f': t.Union[T_, B]}, '__module__': 'mc.generated'}))
+    out.append(('generic_left', grammar.pin(G1[A]), lambda v: {'f': v}, lambda r: r.f, mem))
+    G2 = grammar.pin(new_class('GenR', (pane.PaneBase, t.Generic[T_]), {'__annotations__': {'f': t.Union[A, T_]}, '__module__': 'mc.generated'}))
+    out.append(('generic_right', grammar.pin(G2[B]), lambda v: {'f': v}, lambda r: r.f, mem))
     return out
 
 
